@@ -41,13 +41,14 @@ def system_problem(kind, dim=2):
     return L, PD
 
 
-def problem(kind, dim=2, vec=False, system=False):
+def problem(kind, dim=2, vec=False, system=False, scalar=False):
     if system:
         return system_problem(kind, dim)
-    return _problem(kind, dim, vec)
+    return _problem(kind, dim, vec, scalar)
 
 
-def _problem(kind, dim=2, vec=False):
+def _problem(kind, dim=2, vec=False, scalar=False):
+    """scalar: the equation returns a bare number per point (no trailing axis), which the refinement step squares as it is"""
     """vec: a residual with two components of differing sign and size (ODE and stationary kinds only:
     the non-stationary refinement step reshapes the residuals to one number per space-time pair)"""
     jax, jnp, np, eqx, jinns = jx()
@@ -57,6 +58,8 @@ def _problem(kind, dim=2, vec=False):
             def equation(self, t, u, params):
                 if vec:
                     return jnp.concatenate([u(t, params) - 2.0, 2.0 * u(t, params) - 5.0 * t])
+                if scalar:
+                    return u(t, params)[0] - 2.0
                 return u(t, params) - 2.0
         u = mk([{(0,): 1, (1,): 3, (2,): -4}], "ODE")          # residual 1 + 3t - 4t^2 - 2
         P = Params(nn_params=u.init_params(), eq_params={})
@@ -66,6 +69,8 @@ def _problem(kind, dim=2, vec=False):
             def equation(self, x, u, params):
                 if vec:
                     return jnp.concatenate([u(x, params), x[0:1] - 2.0 * u(x, params)])
+                if scalar:
+                    return u(x, params)[0]
                 return u(x, params)
         poly = {(1, 0): 3, (0, 1): -2, (1, 1): 4} if dim == 2 else {(1,): 3, (2,): -4}
         u = mk([poly], "statio_PDE")
